@@ -174,6 +174,9 @@ def histories(thorough):
     forced = [['I 1 4 7 10', 'I 2 5 8 11', 'I 3 6 9 12', 'D k >= 4 and k <= 6', 'C', 'D k = 8', 'I 5 13', 'O', 'D k > 11', 'I 20 21', 'C', 'D v % 2 = 0'],
               ['I 7 7 7 7 8 8', 'I 7 7 9 9', 'D k = 8', 'C', 'I 8 7', 'D k = 9', 'O', 'C', 'D k = 7'],
               ['I 1 2 3 4 5 6 7 8', 'D k < 3', 'I 9 10', 'D k = 9', 'O', 'I 11', 'C', 'O', 'D k > 6'],
+              # a compaction pass that merges only some of the row-sets: the first row-set alone exceeds the target
+              # row-set size (step 'S 4096' sets it), the two small ones are merged; the big one must survive
+              ['S 4096', 'R 0 1300', 'I 5000 5001', 'I 5002 5003', 'C', 'D k = 7', 'I 6000', 'C', 'O', 'D k >= 5000'],
               # few distinct values: the compactor rewrites the columns with dictionary / run-length encoding
               ['I 7 7 7 7 7 7 8 8 8 8 8 8', 'I 7 7 7 7 8 8 8 8', 'D v = 3', 'C', 'D v = 14', 'I 8 8 7', 'O', 'C', 'D k = 7']]
     if thorough:
@@ -199,8 +202,11 @@ def run_probes(rep, thorough):
             deleted_by_stmt = []
             seq = 0
             checks = []
+            rowset_bytes = 1 << 20
             for step in hist:
-                if step in ('C', 'O'):
+                if step.startswith('S '):
+                    rowset_bytes = int(step[2:])
+                elif step in ('C', 'O'):
                     stmts.append('--sleep 2300' if step == 'C' else '--reopen')
                 elif step.startswith(('I ', 'R ')):
                     rows = []
@@ -242,7 +248,7 @@ def run_probes(rep, thorough):
             d = scratch_dir('c07') if eng == 'disk' else None
             inp = {'engine': eng, 'stmts': stmts}
             if d:
-                inp.update(dir=d, block=block, rowset=1 << 20)
+                inp.update(dir=d, block=block, rowset=rowset_bytes)
             out, rc, err = rl('sql', inp, timeout=300)
             if d:
                 shutil.rmtree(d, ignore_errors=True)
@@ -280,7 +286,7 @@ def run_probes(rep, thorough):
                         again = 0
                         for _ in range(2):
                             d2 = scratch_dir('c07')
-                            out2, _, _ = rl('sql', {'engine': eng, 'stmts': stmts[:idx + 1], 'dir': d2, 'block': block, 'rowset': 1 << 20}, timeout=300)
+                            out2, _, _ = rl('sql', {'engine': eng, 'stmts': stmts[:idx + 1], 'dir': d2, 'block': block, 'rowset': rowset_bytes}, timeout=300)
                             shutil.rmtree(d2, ignore_errors=True)
                             r2 = [o_ for o_ in out2 if 'sql' in o_]
                             g2 = sorted((int(r[0]), int(r[1])) for r in r2[idx]['rows']) if len(r2) > idx and r2[idx].get('ok') else None
@@ -315,7 +321,7 @@ def run_probes(rep, thorough):
         else:
             outc = rep.counterexample('history:disk:slow-scenario', 'DELETE reported %s rows and count(*) afterwards is %s (expected 1024 / 3176)' % (dele, cnt), {'stmts': [s_[:120] for s_ in stmts]}, True)
             rep.obligation(outc == 'known')
-    rep.cov['delete_history_probes'] = {'statements_checked': n, 'agreeing': ok, 'note': 'insert / delete histories on the memory and disk engines (several row-sets, 24-byte and 4 KiB blocks) against a multiset model; concrete probes, not a solver decision; four histories (thorough: twelve) force compaction passes and reopen cycles'}
+    rep.cov['delete_history_probes'] = {'statements_checked': n, 'agreeing': ok, 'note': 'insert / delete histories on the memory and disk engines (several row-sets, 24-byte and 4 KiB blocks) against a multiset model; concrete probes, not a solver decision; five histories (thorough: thirteen) force compaction passes and reopen cycles'}
 
 
 def main(tier, only=None):
